@@ -61,7 +61,9 @@ FAck(e) == Get(e.i).kind = "F" /\ e.off <= e.synced /\ inst' = inst
 \* apply loop: in offset order, exactly once, never beyond the advertised commit offset (C07)
 FApply(e) == LET s == Get(e.i) IN
     /\ s.kind = "F"
-    /\ e.prev = s.commit /\ e.off = s.commit + 1 /\ e.off <= e.adv /\ e.off <= s.lastapp
+    \* (not compared with lastapp: the sync goroutine can make an entry durable, acknowledge it and have it
+    \* applied before the append handler, which wrote it to the WAL, has emitted its own event)
+    /\ e.prev = s.commit /\ e.off = s.commit + 1 /\ e.off <= e.adv
     /\ inst' = Put(e.i, [s EXCEPT !.commit = e.off])
 
 FSnapshot(e) == LET s == Get(e.i) IN
